@@ -14,6 +14,7 @@ Model of partition-key extraction and token calculation (C03).
   `serialize_values` guard of the public entry points.
 * `computePartitionKey` ← `PreparedStatement::compute_partition_key` (348-360).
 * `tokenForPartitionKey` ← `calculate_token_for_partition_key` (`partitioner.rs:396-423`).
+* `clusterComputeToken` ← `ClusterState::compute_token` / `do_compute_token` / `lookup_table_meta` (`cluster/state.rs:457-501`).
 -/
 namespace ScyllaVerif.PartitionKey
 open ScyllaVerif.Murmur3
@@ -154,6 +155,44 @@ def tokenForPartitionKey (cdc : Bool) (values : List RawValue) : Except Nat Int6
     match compositeChunks (vs.filterMap RawValue.asValue) with
     | .error n => .error n
     | .ok chunks => .ok (hashChunks cdc chunks)
+
+/-! ### `ClusterState::compute_token` (`cluster/state.rs:457-501`): the token path that bypasses `PreparedStatement` -/
+
+/-- What `compute_token` reads of a `Table`: the number of partition-key columns (`pk_column_specs.len()`) and the
+partitioner string. -/
+structure TableInfo where
+  pkColumns : Nat
+  partitioner : Option (List UInt8)
+  deriving Repr
+
+/-- `ClusterState::keyspaces`: keyspace name ↦ table name ↦ table (names as UTF-8 bytes). -/
+abbrev TableSnapshot := List (List UInt8 × List (List UInt8 × TableInfo))
+
+inductive ClusterTokenErr where
+  /-- `ClusterStateTokenError::UnknownTable` -/
+  | unknownTable
+  /-- `ClusterStateTokenError::Serialization`: the key does not have one value per partition-key column -/
+  | serialization
+  /-- `ClusterStateTokenError::TokenCalculation(ValueTooLong(n))` -/
+  | valueTooLong (n : Nat)
+  deriving Repr, DecidableEq
+
+/-- `compute_token(keyspace, table, partition_key)`: `lookup_table_meta`, serialize the key against
+`pk_column_specs` (one value per column), partitioner = `table.partitioner.and_then(from_str).unwrap_or_default()`,
+`calculate_token_for_partition_key`. The key's values are given in partition-key order. -/
+def clusterComputeToken (schema : TableSnapshot) (ks table : List UInt8) (key : List RawValue) :
+    Except ClusterTokenErr Int64 :=
+  match schema.lookup ks with
+  | none => .error .unknownTable
+  | some tables =>
+    match tables.lookup table with
+    | none => .error .unknownTable
+    | some t =>
+      if key.length ≠ t.pkColumns ∨ 65535 < key.length then .error .serialization
+      else
+        match tokenForPartitionKey (selectPartitioner t.partitioner == .cdc) key with
+        | .error n => .error (.valueTooLong n)
+        | .ok tok => .ok tok
 
 /-! ### The specification side -/
 
